@@ -202,6 +202,40 @@ func (c *Ctx) dynamicTypes(v ssa.Value) ([]types.Type, bool) {
 				return // nil interface: binary.Write fails, but that is a constant programming error
 			}
 			complete = false
+		case *ssa.Parameter:
+			// an interface parameter of an unexported helper: the union over its library call sites
+			fn := x.Parent()
+			if fn.Object() != nil && fn.Object().Exported() {
+				complete = false
+				return
+			}
+			n := c.P.CallGraph().Nodes[fn]
+			idx := -1
+			for k, p := range fn.Params {
+				if p == x {
+					idx = k
+				}
+			}
+			if n == nil || len(n.In) == 0 || idx < 0 {
+				complete = false
+				return
+			}
+			for _, e := range n.In {
+				if e.Site == nil || !c.P.InLib(e.Caller.Func) {
+					complete = false
+					continue
+				}
+				args := ir.CallArgs(e.Site)
+				if idx >= len(args) {
+					complete = false
+					continue
+				}
+				ts, ok := c.dynamicTypes(args[idx])
+				if !ok {
+					complete = false
+				}
+				out = append(out, ts...)
+			}
 		case *ssa.UnOp:
 			if x.Op != token.MUL {
 				complete = false
@@ -214,6 +248,37 @@ func (c *Ctx) dynamicTypes(v ssa.Value) ([]types.Type, bool) {
 				}
 			case *ssa.IndexAddr:
 				root := ir.RootOf(a.X)
+				if p, isParam := root.(*ssa.Parameter); isParam && a.X == ssa.Value(p) {
+					// element of a variadic/slice parameter: the literals at the library call sites
+					fn := p.Parent()
+					n := c.P.CallGraph().Nodes[fn]
+					idx := -1
+					for k, q := range fn.Params {
+						if q == p {
+							idx = k
+						}
+					}
+					if n == nil || len(n.In) == 0 || idx < 0 || fn.Object() != nil && fn.Object().Exported() {
+						complete = false
+						return
+					}
+					for _, e := range n.In {
+						if e.Site == nil || !c.P.InLib(e.Caller.Func) {
+							complete = false
+							continue
+						}
+						args := ir.CallArgs(e.Site)
+						elems := orderedVariadic(args[idx])
+						if elems == nil {
+							complete = false
+							continue
+						}
+						for _, el := range elems {
+							visit(el)
+						}
+					}
+					return
+				}
 				if _, isAlloc := root.(*ssa.Alloc); !isAlloc {
 					complete = false
 					return
